@@ -19,8 +19,9 @@ ASSUMPTIONS = [
     "the memoised algorithm of the implementation (steps A-J with PairSet/OrderedPairSet, field maps per selection set) is "
     "modelled in Valid/OverlapOpt.v and tied to the real rule by verdict, by the sequence of memo has/add decisions and by the "
     "final memo tables (read from a subclass of the rule instance; if these internals are not readable the tie degrades to the "
-    "verdict). Its equivalence with the specification function is proved only for documents without named fragments "
-    "(C14_equiv_partial); with fragments it is checked per generated document (extracted opt_conflicts vs extracted spec_conflicts)",
+    "verdict). Its equivalence with the specification function is proved for all typable well-formed documents, cyclic "
+    "fragments included (C14_equiv = C14_memo_never_hides + C14_memo_sound); the run still compares extracted opt_conflicts "
+    "with extracted spec_conflicts on every document as a check of harness and encoding",
     "out of the modelled fragment (skipped, counted): fields or type conditions the schema cannot type, __schema/__type, "
     "unknown or duplicate fragments, duplicate argument/input-field names, block strings in arguments, @stream, "
     "fragment variable definitions / spread arguments (experimental syntax)",
@@ -852,7 +853,7 @@ def compare_documents(ck, m, items):
         if (out2[0] == 1) != want:
             ck.violation(f"optmodel:{text!r}",
                          f"modelled memoised algorithm answers {out2[0] == 1}, specification function {want} "
-                         f"(refutes C14_equiv_statement or the memoised model is wrong): {text!r}",
+                         f"(contradicts theorem C14_equiv: harness or encoding error, or the memoised model is wrong): {text!r}",
                          dict(rep, relation="opt_conflicts = spec_conflicts", model_opt=out2[0] == 1, model_spec=want))
         elif inst is not None and got == (out2[0] == 1):
             cmp = compare_memo(inst, enc, out2, complete=out2[0] == 0)
